@@ -1,12 +1,13 @@
 (* Property C13 - ConvexHull is the minimal convex cover; rotated bounding rectangles enclose it.
    Statements only; proofs are in Proofs/Hull_proofs.v, Hull_chain.v (scan invariant), Hull_ring.v
    (assembly of the two chains), Hull_idem.v (set-dependence, uniqueness of strict chains,
-   idempotence), Hull_main.v (corollaries, geometry level) and Calipers_proofs.v.
+   idempotence), Hull_main.v (corollaries, geometry level), Calipers_proofs.v, Calipers_walk.v and
+   Hull_scale.v (scale-equivariance).
    Models: Model/Hull.v (carrier Z, the lattice on which the implementation's float arithmetic is
    exact) and Model/Calipers.v (carrier Q). *)
 From Coq Require Import ZArith QArith List Bool Permutation Sorting.Sorted.
 From SF Require Import Base.GeomAST Model.Hull Model.Calipers Proofs.Hull_proofs Proofs.Hull_chain
-  Proofs.Hull_ring Proofs.Hull_idem Proofs.Hull_main Proofs.Calipers_proofs Proofs.Calipers_walk.
+  Proofs.Hull_ring Proofs.Hull_idem Proofs.Hull_main Proofs.Calipers_proofs Proofs.Calipers_walk Proofs.Hull_scale.
 Import ListNotations.
 Open Scope Z_scope.
 
@@ -190,6 +191,44 @@ Theorem walked_mbr_is_min : forall (k : metric_kind) (ps ring : list pt) (c : ca
 Proof. exact walked_mbr_is_min_lemma. Qed.
 Print Assumptions walked_mbr_is_min.
 
+(* ---- scale-equivariance (Proofs/Hull_scale.v): the models have no intrinsic scale ---- *)
+(* Multiplying every point by a positive integer c multiplies the hull by c (same case, same
+   vertices in the same order) ... *)
+Theorem hull_scale_equivariant : forall (c : Z) (ps : list pt), 0 < c ->
+  hull_pts (map (scl c) ps) = scl_result c (hull_pts ps).
+Proof. exact hull_pts_scale_lemma. Qed.
+Print Assumptions hull_scale_equivariant.
+(* ... the candidates of the scaled ring are the scaled candidates (base vertex and direction times
+   c, the three extreme projections times c^2), edge by edge in the same order ... *)
+Theorem candidates_scale_equivariant : forall (c : Z) (ring : list pt), 0 < c ->
+  candidates (map (scl c) ring) = map (scl_cand c) (candidates ring).
+Proof. exact candidates_scale_lemma. Qed.
+Print Assumptions candidates_scale_equivariant.
+(* ... the rectangle of a scaled candidate is the rectangle of the candidate times c, corner by
+   corner (over Q) ... *)
+Theorem cand_rect_scale_equivariant : forall (c : Z) (x : cand), 0 < c ->
+  Forall2 qpt_eq (rect_corners (cand_rect (scl_cand c x))) (map (qscl c) (rect_corners (cand_rect x))).
+Proof. exact scl_rect_corners. Qed.
+Print Assumptions cand_rect_scale_equivariant.
+(* ... both metrics (area, squared width) are multiplied by c^2 ... *)
+Theorem cand_metric_scale : forall (k : metric_kind) (c : Z) (x : cand), 0 < c ->
+  (cand_metric k (scl_cand c x) == inject_Z (c * c) * cand_metric k x)%Q.
+Proof. exact cand_metric_scale_lemma. Qed.
+Print Assumptions cand_metric_scale.
+(* ... so the first strict minimum is found at the same edge: findMBR of the scaled ring is the
+   scaled findMBR of the ring, and the whole function commutes with scaling.  A case that the
+   implementation saw multiplied by 2^k may therefore be judged on its pre-image (classes scaled
+   and rescaled of the correspondence); for k < 0 read the statement with the roles exchanged
+   (the lattice case is 2^-k times the implementation's input). *)
+Theorem find_mbr_scale_equivariant : forall (k : metric_kind) (c : Z) (ring : list pt), 0 < c ->
+  find_mbr k (map (scl c) ring) = option_map (scl_cand c) (find_mbr k ring).
+Proof. exact find_mbr_scale_lemma. Qed.
+Print Assumptions find_mbr_scale_equivariant.
+Theorem mbr_scale_equivariant : forall (k : metric_kind) (c : Z) (ps : list pt), 0 < c ->
+  mbr_pts k (map (scl c) ps) = scl_mbr c (mbr_pts k ps).
+Proof. exact mbr_pts_scale_lemma. Qed.
+Print Assumptions mbr_scale_equivariant.
+
 (* ---- non-vacuity ---- *)
 (* duplicates of both extremes, collinear points on three hull edges, an interior point *)
 Definition ex_pts : list pt :=
@@ -216,3 +255,34 @@ Proof. vm_compute. reflexivity. Qed.
 Example ex_walk : walk_candidates [(0,0); (2,-1); (5,0); (6,3); (3,5); (-1,2); (0,0)]
                   = Some (candidates [(0,0); (2,-1); (5,0); (6,3); (3,5); (-1,2); (0,0)]).
 Proof. vm_compute. reflexivity. Qed.
+(* a long slab with a slanted tip: the ring starts at the tip (-2,1); its first edge (-2,1)->(0,0)
+   gives a rectangle of area 748 and squared width 1936/5, the minima 84 and 4 are on the long
+   edge (0,0)->(40,0).  Multiplied by 2^300 the same edge wins (Z and Q: nothing overflows) *)
+Definition ex_slab : list pt := [(0,0); (40,0); (40,2); (0,2); (-2,1); (17,1); (40,0); (5,2)].
+Example ex_slab_first_edge_not_optimal :
+  hull_pts ex_slab = HPoly [(-2,1); (0,0); (40,0); (40,2); (0,2); (-2,1)] /\
+  match candidates [(-2,1); (0,0); (40,0); (40,2); (0,2); (-2,1)], mbr_pts MArea ex_slab, mbr_pts MWidth ex_slab with
+  | c0 :: _, MRect ca, MRect cw =>
+      c_a c0 = (-2,1) /\ (cand_metric MArea c0 == 748)%Q /\ (cand_metric MWidth c0 == 1936 # 5)%Q /\
+      c_a ca = (0,0) /\ c_d ca = (40,0) /\ (cand_metric MArea ca == 84)%Q /\
+      c_a cw = (0,0) /\ c_d cw = (40,0) /\ (cand_metric MWidth cw == 4)%Q
+  | _, _, _ => False
+  end.
+Proof. vm_compute. repeat split; reflexivity. Qed.
+Example ex_slab_scaled :
+  match mbr_pts MArea (map (scl (2 ^ 300)) ex_slab) with
+  | MRect ca => c_a ca = (0,0) /\ c_d ca = (40 * 2 ^ 300, 0) /\ (cand_metric MArea ca == 84 * inject_Z (2 ^ 600))%Q
+  | _ => False
+  end.
+Proof. vm_compute. repeat split; reflexivity. Qed.
+(* no edge optimal for both metrics: areas 6, 21/5, 4, 4 and squared widths 4, 9/5, 2, 2 - the
+   minimum-area rectangle stands on (3,1)->(2,2), the minimum-width one on (1,0)->(3,1), and the
+   first edge (0,0)->(1,0) is optimal for neither *)
+Example ex_area_and_width_optima_differ :
+  match mbr_pts MArea [(2,2); (0,0); (3,1); (1,0)], mbr_pts MWidth [(2,2); (0,0); (3,1); (1,0)] with
+  | MRect ca, MRect cw =>
+      c_a ca = (3,1) /\ (cand_metric MArea ca == 4)%Q /\ (cand_metric MWidth ca == 2)%Q /\
+      c_a cw = (1,0) /\ (cand_metric MWidth cw == 9 # 5)%Q /\ (cand_metric MArea cw == 21 # 5)%Q
+  | _, _ => False
+  end.
+Proof. vm_compute. repeat split; reflexivity. Qed.
